@@ -810,7 +810,8 @@ impl VarRecord {
     ///    < 4.4 the first allele's phasing is the implicit one;
     ///  * VCF text: every NaN is "NaN" (payload and sign are not representable); REF IUPAC codes
     ///    are reduced as the specification prescribes for writers;
-    ///  * BCF: a sample row shorter than FORMAT (trailing fields dropped) ≡ padded with missing.
+    ///  * BCF: a sample row shorter than FORMAT (trailing fields dropped) ≡ padded with missing;
+    ///  * both targets: with no FORMAT keys, N empty sample rows ≡ no rows.
     pub fn normalised(&self, target: Target, header: &VarHeader) -> VarRecord {
         let mut r = self.clone();
         if target == Target::VcfText {
@@ -835,6 +836,11 @@ impl VarRecord {
                 row
             })
             .collect();
+        // no FORMAT keys: whether the record then holds zero rows or one empty row per sample
+        // of the header is representation, not content
+        if nkeys == 0 && r.samples.iter().all(|row| row.is_empty()) {
+            r.samples.clear();
+        }
         r
     }
 
@@ -2159,7 +2165,10 @@ fn build_record(h: &VarHeader, mode: &Mode, raw: RawRecord) -> VarRecord {
             })
             .collect();
         let mut chosen: Vec<usize> = (0..h.formats.len()).filter(|&i| raw.fmts[i].0 < 60).collect();
-        if chosen.is_empty() && !h.formats.is_empty() {
+        // no key drawn: usually force one; one time in three the record has no FORMAT column at
+        // all although the header names samples (8 columns in text, l_indiv = 0 in BCF) — the
+        // shape that exposes state left over in a reused record buffer
+        if chosen.is_empty() && !h.formats.is_empty() && (raw.span_sel as usize / h.formats.len().max(1)) % 3 != 0 {
             chosen.push((raw.span_sel as usize) % h.formats.len());
         }
         // GT, if chosen, goes first
